@@ -199,11 +199,12 @@ func TestVerif_Dispatch(t *testing.T) {
 		fmt.Sscanf(v, "%d", &width)
 	}
 	// fault injection inside olla: an attempt on an endpoint whose plan is "panic" panics at the
-	// proxy.attempt point (scenarios using it run one at a time: the hook is process-wide)
+	// proxy.engine point, the first thing an engine does in an attempt (scenarios using it run one at a time: the
+	// hook is process-wide)
 	var boomMu sync.Mutex
 	boomSet := map[string]bool{}
 	verifhook.Set(func(name, key string) {
-		if name != "proxy.attempt" {
+		if name != "proxy.engine" {
 			return
 		}
 		boomMu.Lock()
